@@ -1,5 +1,6 @@
 import SaModel.Props.C01
 import SaModel.Props.C11Front
+import SaModel.Build.Wrappers
 /-
 C11 — how a record is presented does not change the arrays.
 
@@ -8,7 +9,11 @@ C11 — how a record is presented does not change the arrays.
   presentations with the same `interpDT` (struct / map / tuple, any field order, extra fields, `Some`/newtype
   layers, integer widths …) leave the builder with the same logical rows.
 * `record_as_map`: a struct presentation and the map presentation with the same keys have the same `interpDT`.
+* `record_as_tuple`: a tuple in schema order means what the struct presentation with the schema's names means.
 * `record_perm`: permuting the fields of a struct presentation does not change `interpDT` (on the ok side).
+* `absent_nullable_is_null`, `absent_required_is_error`, `duplicate_is_error`.
+* `Item` / `Items` (Build/Wrappers.lean): `item_is_record`, `items_is_seq_of_records`, `item_interp_record`, `item_row`.
+* the statements about the ARRAYS (`C11_presentations`, …) are in Props/C11Arrays.lean.
 * `extra_field_ignored`: a field no schema field is named after is ignored.
 * the positional fast path of `FieldLookup::lookup` is sound for every cache state: `C11Front.lookup_sound`
   (used by the R1/R2 proofs for `serialize_struct_field`), so interleaving differently laid-out record types
@@ -200,12 +205,240 @@ theorem record_perm (ext : Ext) (sfs : Fields) (n : Bool) (md : Metadata) (nm nm
     rw [pickOne_perm hperm hw]
     exact hf
 
+/-! ### absent fields, fields given twice -/
+
+def SFields.keys : SFields → List String
+  | .nil => []
+  | .cons k _ _ r => k :: SFields.keys r
+
+/-- how many entries of a struct presentation carry the key `name` -/
+def SFields.count (name : String) : SFields → Nat
+  | .nil => 0
+  | .cons k _ _ r => (if k == name then 1 else 0) + SFields.count name r
+
+theorem interpByName_length (ext : Ext) (name : String) (dt : DataType) (n : Bool) (md : Metadata) :
+    ∀ (fs : SFields) (found : List LVal), interpByName ext name dt n md fs = .ok found → found.length = SFields.count name fs
+  | .nil, found, h => by simp [interpByName] at h; subst h; rfl
+  | .cons k al v r, found, h => by
+    simp only [interpByName] at h
+    obtain ⟨vs, hvs, h⟩ := (bind_ok _ _ _).1 h
+    have ih := interpByName_length ext name dt n md r vs hvs
+    by_cases hk : (k == name) = true
+    · simp only [hk, if_true] at h
+      obtain ⟨w, _, h⟩ := (bind_ok _ _ _).1 h
+      cases h
+      simp [SFields.count, hk, ih]; omega
+    · simp only [hk, Bool.false_eq_true, if_false] at h
+      cases h
+      simp [SFields.count, hk, ih]
+
+theorem mapM_error_of_mem {α β} {g : α → R β} : ∀ {l : List α} {a : α}, a ∈ l → (∃ e, g a = .error e) →
+    ∃ e, l.mapM g = .error e
+  | b :: l, a, hmem, he => by
+    rw [List.mapM_cons]
+    cases hb : g b with
+    | error e => exact ⟨e, rfl⟩
+    | ok vb =>
+      rcases List.mem_cons.1 hmem with rfl | hmem
+      · obtain ⟨e, he⟩ := he; rw [he] at hb; cases hb
+      · obtain ⟨e, he'⟩ := mapM_error_of_mem hmem he
+        exact ⟨e, by simp [he', bind, Except.bind]⟩
+
+/-- a struct presentation is undefined (has no documented value) as soon as ONE schema field's candidates are refused -/
+theorem record_error_of_field (ext : Ext) (sfs : Fields) (n : Bool) (md : Metadata) (nm : String) (fs : SFields)
+    (f : Field) (hf : f ∈ sfs.toList)
+    (hbad : ∀ found, interpByName ext f.name f.dataType f.nullable f.metadata fs = .ok found →
+      ∃ e, pickOne f.name f.nullable f.dataType f.metadata found = .error e) :
+    ∃ e, interpDT ext (.struct sfs) n md (.record nm fs) = .error e := by
+  simp only [interpDT, isUnknownVariant, Bool.false_eq_true, if_false, structOf]
+  obtain ⟨e, he⟩ := mapM_error_of_mem (g := fun f => do
+      let found ← interpByName ext f.name f.dataType f.nullable f.metadata fs
+      let v ← pickOne f.name f.nullable f.dataType f.metadata found
+      pure (f.name, v)) hf (by
+    cases hfound : interpByName ext f.name f.dataType f.nullable f.metadata fs with
+    | error e => exact ⟨e, by simp [bind, Except.bind]⟩
+    | ok found =>
+      obtain ⟨e, he⟩ := hbad found hfound
+      exact ⟨e, by simp [he, bind, Except.bind]⟩)
+  exact ⟨e, by rw [he]; rfl⟩
+
+/-- **an absent non-nullable field is an error**: no documented value, whatever else the record holds -/
+theorem absent_required_is_error (ext : Ext) (sfs : Fields) (n : Bool) (md : Metadata) (nm : String) (fs : SFields)
+    (f : Field) (hf : f ∈ sfs.toList) (hreq : f.nullable = false) (habs : SFields.count f.name fs = 0) :
+    ∃ e, interpDT ext (.struct sfs) n md (.record nm fs) = .error e := by
+  apply record_error_of_field ext sfs n md nm fs f hf
+  intro found hfound
+  have hl := interpByName_length ext _ _ _ _ fs found hfound
+  rw [habs] at hl
+  have : found = [] := List.length_eq_zero_iff.1 hl
+  subst this
+  exact ⟨_, by simp only [pickOne, hreq]; rfl⟩
+
+/-- **a field given twice is an error** (nullable or not, equal values or not) -/
+theorem duplicate_is_error (ext : Ext) (sfs : Fields) (n : Bool) (md : Metadata) (nm : String) (fs : SFields)
+    (f : Field) (hf : f ∈ sfs.toList) (hdup : 2 ≤ SFields.count f.name fs) :
+    ∃ e, interpDT ext (.struct sfs) n md (.record nm fs) = .error e := by
+  apply record_error_of_field ext sfs n md nm fs f hf
+  intro found hfound
+  have hl := interpByName_length ext _ _ _ _ fs found hfound
+  match found, hl with
+  | [], hl => simp at hl; omega
+  | [_], hl => simp at hl; omega
+  | _ :: _ :: _, _ => exact ⟨_, rfl⟩
+
+theorem interpByName_absent (ext : Ext) (name : String) (dt : DataType) (n : Bool) (md : Metadata) :
+    ∀ (fs : SFields), SFields.count name fs = 0 → interpByName ext name dt n md fs = .ok []
+  | .nil, _ => rfl
+  | .cons k al v r, h => by
+    simp only [SFields.count] at h
+    have hk : (k == name) = false := by
+      cases hk : (k == name) with
+      | false => rfl
+      | true => simp [hk] at h
+    simp only [interpByName, hk, interpByName_absent ext name dt n md r (by simp [hk] at h; exact h), bind, Except.bind]
+    rfl
+
+/-- **an absent nullable field is null**: leaving a field out and giving it as an explicit `None` (or unit) mean the
+same record — for every schema in which the fields of that name are nullable -/
+theorem absent_nullable_is_null (ext : Ext) (sfs : Fields) (n : Bool) (md : Metadata) (nm key : String) (al : Nat)
+    (rest : SFields) (hnull : ∀ f ∈ sfs.toList, f.name = key → f.nullable = true) (habs : SFields.count key rest = 0) :
+    interpDT ext (.struct sfs) n md (.record nm (.cons key al .none rest)) =
+      interpDT ext (.struct sfs) n md (.record nm rest) := by
+  simp only [interpDT, isUnknownVariant, Bool.false_eq_true, if_false, structOf]
+  congr 1
+  apply extra_field_ignored.mapM_congr
+  intro f hf
+  by_cases hk : f.name = key
+  · have hn := hnull f hf hk
+    subst hk
+    simp only [interpByName, interpByName_absent ext _ _ _ _ rest habs, beq_self_eq_true, if_true, interpDT, bind,
+      Except.bind, pure, Except.pure]
+    cases hi : interpNull f.dataType f.nullable f.metadata with
+    | error e => rw [hn] at hi; simp [pickOne, hn, hi]
+    | ok v => rw [hn] at hi; simp [pickOne, hn, hi]
+  · have : (key == f.name) = false := by simpa using Ne.symm hk
+    simp only [interpByName, this, bind, Except.bind]
+    cases interpByName ext f.name f.dataType f.nullable f.metadata rest <;> rfl
+
+/-! ### tuple in schema order = struct presentation -/
+
+/-- the struct presentation of a positional record: the schema's field names, in schema order, paired with the values
+(a shorter tuple leaves the last fields out, surplus elements are dropped) -/
+def asRecordFields : List String → List SVal → SFields
+  | n :: ns, v :: vs => .cons n 0 v (asRecordFields ns vs)
+  | _, _ => .nil
+
+theorem interpByName_asRecordFields_absent (ext : Ext) (name : String) (dt : DataType) (n : Bool) (md : Metadata) :
+    ∀ (names : List String) (vs : List SVal), name ∉ names →
+      interpByName ext name dt n md (asRecordFields names vs) = .ok []
+  | [], _, _ => by simp [asRecordFields, interpByName]
+  | _ :: _, [], _ => by simp [asRecordFields, interpByName]
+  | n0 :: ns, v :: vs, h => by
+    simp only [List.mem_cons, not_or] at h
+    have hne : (n0 == name) = false := by simpa using Ne.symm h.1
+    simp only [asRecordFields, interpByName, interpByName_asRecordFields_absent ext name dt n md ns vs h.2, hne,
+      bind, Except.bind]
+    rfl
+
+/-- position `k` of a tuple is what the struct presentation gives for the `k`-th field name (distinct names) -/
+theorem interpByName_asRecordFields (ext : Ext) (name : String) (dt : DataType) (n : Bool) (md : Metadata) :
+    ∀ (names : List String) (vs : List SVal) (k : Nat), names.Nodup → names[k]? = some name →
+      interpByName ext name dt n md (asRecordFields names vs) = interpNth ext dt n md k (SVals.ofList vs)
+  | [], _, _, _, h => by simp at h
+  | _ :: _, [], _, _, _ => by simp [asRecordFields, interpByName, SVals.ofList, interpNth]
+  | n0 :: ns, v :: vs, 0, hnd, h => by
+    simp only [List.getElem?_cons_zero, Option.some.injEq] at h
+    subst h
+    have habs := interpByName_asRecordFields_absent ext n0 dt n md ns vs (List.nodup_cons.1 hnd).1
+    simp only [asRecordFields, interpByName, habs, SVals.ofList, interpNth, beq_self_eq_true, if_true, bind, Except.bind]
+  | n0 :: ns, v :: vs, k + 1, hnd, h => by
+    simp only [List.getElem?_cons_succ] at h
+    have hmem : name ∈ ns := List.mem_of_getElem? h
+    have hne : (n0 == name) = false := by
+      have : n0 ≠ name := fun e => (List.nodup_cons.1 hnd).1 (e ▸ hmem)
+      simpa using this
+    simp only [asRecordFields, interpByName, SVals.ofList, interpNth, hne,
+      interpByName_asRecordFields ext name dt n md ns vs k (List.nodup_cons.1 hnd).2 h, bind, Except.bind]
+    cases interpNth ext dt n md k (SVals.ofList vs) <;> rfl
+
+/-- **tuple ≃ struct**: a record presented as a tuple (or tuple struct) in schema order means exactly what the struct
+presentation with the schema's field names means (schema field names distinct — `build_builder` refuses duplicates) -/
+theorem record_as_tuple (ext : Ext) (sfs : Fields) (n : Bool) (md : Metadata) (nm : String) (vs : List SVal)
+    (hnd : (sfs.toList.map Field.name).Nodup) :
+    interpDT ext (.struct sfs) n md (.tuple (SVals.ofList vs)) =
+      interpDT ext (.struct sfs) n md (.record nm (asRecordFields (sfs.toList.map Field.name) vs)) := by
+  simp only [interpDT, isUnknownVariant, Bool.false_eq_true, if_false, structOf]
+  congr 1
+  apply extra_field_ignored.mapM_congr
+  intro f hf
+  obtain ⟨j, hj, rfl⟩ := List.getElem_of_mem hf
+  have hget : (sfs.toList.map Field.name)[j]? = some sfs.toList[j].name := by
+    rw [List.getElem?_map, List.getElem?_eq_getElem hj]; rfl
+  rw [C11Front.indexOfName_of_get _ hnd _ j hget, Option.getD_some,
+    interpByName_asRecordFields ext _ _ _ _ _ vs j hnd hget]
+
+theorem record_as_tupleStruct (ext : Ext) (sfs : Fields) (n : Bool) (md : Metadata) (nm tn : String) (vs : List SVal)
+    (hnd : (sfs.toList.map Field.name).Nodup) :
+    interpDT ext (.struct sfs) n md (.tupleStruct tn (SVals.ofList vs)) =
+      interpDT ext (.struct sfs) n md (.record nm (asRecordFields (sfs.toList.map Field.name) vs)) := by
+  rw [← record_as_tuple ext sfs n md nm vs hnd]
+  simp only [interpDT]
+
+/-! ### `Item` / `Items` (serde_arrow/src/internal/utils/mod.rs:17-153)
+
+The two wrappers have hand-written `Serialize` impls; they are modelled call by call in Build/Wrappers.lean
+(`Build.serItem`, `Build.serItems`).  Everything the builder (and the specification) sees of them is that value, so "behave exactly like a one-field record named `item`" is the
+definitional unfolding `item_is_record` / `items_is_seq_of_records`, and the consequences are the presentation theorems
+applied to it.  (Array-level corollaries: Props/C11Arrays.lean.) -/
+
+/-- **`Item(v)` IS the one-field record named `item`** (what `#[derive(Serialize)] struct Item { item: T }` issues) -/
+theorem item_is_record (al : Nat) (v : SVal) : serItem al v = .record "Item" (.cons "item" al v .nil) := rfl
+
+/-- **`Items(vs)` IS the sequence of those records**, in order -/
+theorem items_is_seq_of_records (al : Nat) (vs : List SVal) :
+    serItems al vs = .seq (SVals.ofList (vs.map fun v => .record "Item" (.cons "item" al v .nil))) := rfl
+
+/-- neither the struct's type name nor the address of the static `"item"` matter: `Item(v)` means what ANY one-field
+record `R { item: v }` means … -/
+theorem item_interp_record (ext : Ext) (sfs : Fields) (n : Bool) (md : Metadata) (al al' : Nat) (nm : String) (v : SVal) :
+    interpDT ext (.struct sfs) n md (serItem al v) = interpDT ext (.struct sfs) n md (.record nm (.cons "item" al' v .nil)) := by
+  simp only [serItem, interpDT, interpByName]
+
+/-- … and what the map `{"item": v}` means -/
+theorem item_interp_map (ext : Ext) (sfs : Fields) (n : Bool) (md : Metadata) (al : Nat) (v : SVal) :
+    interpDT ext (.struct sfs) n md (serItem al v) = interpDT ext (.struct sfs) n md (.map (.cons (.str "item") v .nil)) :=
+  (record_as_map ext sfs n md "Item" (.cons "item" al v .nil)).symm
+
+/-- against the schema `[item: dt]` (what `SchemaLike::from_type::<Item<T>>` traces), `Item(v)` is the row whose single
+column `item` holds the documented value of `v` -/
+theorem item_row (ext : Ext) (dt : DataType) (n : Bool) (md : Metadata) (al : Nat) (v : SVal) :
+    interpRow ext [.mk "item" dt n md] (serItem al v) =
+      (do let lv ← interpDT ext dt n md v; pure (.struct (.cons "item" lv .nil))) := by
+  simp only [interpRow, serItem, interpDT, isUnknownVariant, Bool.false_eq_true, if_false, structOf, Fields.toList_ofList,
+    List.mapM_cons, List.mapM_nil, interpByName, Field.name, Field.dataType, Field.nullable, Field.metadata,
+    beq_self_eq_true, if_true, bind, Except.bind, pure, Except.pure]
+  cases interpDT ext dt n md v with
+  | error e => rfl
+  | ok lv => simp [pickOne, LFields.ofList]
+
+theorem noRaw_serItem (al : Nat) (v : SVal) : noRaw (serItem al v) = noRaw v := by
+  simp [serItem, noRaw, noRawf]
+
 /-! ### non-vacuity -/
 
 example : interpDT {} (.struct (.cons (.mk "a" .int32 false []) (.cons (.mk "b" .utf8 true []) .nil))) false []
       (.record "R" (.cons "b" 1 (.str "x") (.cons "zzz" 2 .unit (.cons "a" 0 (.int .i8 2) .nil)))) =
     .ok (.struct (.cons "a" (.int 2) (.cons "b" (.str [120]) .nil))) := by decide +kernel
 
+example : asRecordFields ["a", "b"] [.int .i8 2, .str "x", .unit] = .cons "a" 0 (.int .i8 2) (.cons "b" 0 (.str "x") .nil) := rfl
+
 example : asEntries (.cons "a" 0 (.int .i8 2) .nil) = .cons (.str "a") (.int .i8 2) .nil := rfl
+
+/-- `Items(&[7u8, 9u8])` as the builder sees it, and what its second element means against `[item: Int32]` -/
+example : serItems 0 [.int .u8 7, .int .u8 9] =
+    .seq (.cons (.record "Item" (.cons "item" 0 (.int .u8 7) .nil)) (.cons (.record "Item" (.cons "item" 0 (.int .u8 9) .nil)) .nil)) := rfl
+
+example : interpRow {} [.mk "item" .int32 false []] (serItem 0 (.int .u8 9)) = .ok (.struct (.cons "item" (.int 9) .nil)) := by
+  decide +kernel
 
 end SaModel.Props.C11
